@@ -168,6 +168,55 @@ def registry_work_init(tier):
     work_init(tier)
 
 
+# ---------------------------------------------------------------------------
+# family (v): a VALID client hello whose version field is a byte blob of every possible size, nested as the only
+# element of a sequence / set / map that announces the maximum number of elements, followed by filler.  Whatever the
+# hello decoder does with the stream position (it computes the padding length from the peer-controlled field sizes),
+# the work stays bounded by the input.
+
+def nested_hello_cases():
+    from mpgameserver.connection import HandshakeClientHelloMessage, Packet, PacketHeader
+    H = lambda x: struct.pack(">H", x)  # noqa
+    i32 = lambda v: H(5) + struct.pack(">l", v)  # noqa
+    hello = _HS["client_hello"]
+    # type header (2) + der blob (serialized bytes value) ; find where the version value starts by re-encoding
+    s0 = io.BytesIO()
+    from mc import seams
+    key = seams.fixture_keys()[1].getPublicKey().getBytes()
+    serialize_value(s0, key)
+    prefix = hello[:2] + s0.getvalue()
+    assert hello.startswith(prefix), "hello layout changed"
+    C = Packet.MAX_PAYLOAD_SIZE - 2 - PacketHeader.SIZE - 2
+    out = []
+    step = 1 if _TIER == "thorough" else 1
+    for n in range(0, C + 40, step):
+        ver = io.BytesIO()
+        serialize_value(ver, b"v" * n)
+        body = prefix + ver.getvalue()
+        for cname, head in (("seq", H(16) + i32(2 ** 14)), ("set", H(18) + i32(2 ** 14)), ("map-key", H(17) + i32(2 ** 14))):
+            if cname != "seq" and n % 16:
+                continue
+            out.append(("%s[16384] of a hello with a %d-byte version blob" % (cname, n), head + body + b"\x00" * 1500))
+    return out
+
+
+def nested_hello_work(arg):
+    k, n = arg
+    acc = {"counts": core.Counter(), "viols": {}}
+    total = 0
+    for i, (name, m) in enumerate(nested_hello_cases()):
+        if i % n != k:
+            continue
+        total += 1
+        cls, bad, calls = probe(m)
+        fold(acc, "nested-hello:" + cls, bad, {"family": "nested-hello", "name": name})
+    return total, dict(acc["counts"]), acc["viols"], 0.0
+
+
+def nested_hello_work_init(tier):
+    work_init(tier)
+
+
 def safe_repr(x):
     try:
         return repr(x)[:200]
@@ -498,6 +547,7 @@ def run(tier, seed):
     acc = {}
     maxratio = 0.0
     res = list(res) + list(core.pmap("checks.c14", "registry_work", [(k, 16) for k in range(16)], initargs=(tier,)))
+    res = res + list(core.pmap("checks.c14", "nested_hello_work", [(k, 16) for k in range(16)], initargs=(tier,)))
     for t, counts, viols, mr in res:
         total += t
         maxratio = max(maxratio, mr)
@@ -512,7 +562,7 @@ def run(tier, seed):
     rep.coverage = {
         "evaluations": total, "distinct_nontrivial": sum(v for k, v in classes.items() if k == "value" or k.endswith(":value")),
         "rule": "families: all truncations + bit flips of every C13 encoding <=36 (quick) / 64 (thorough) bytes; every token sequence of length <=%d over %d tokens; truncations/bit flips/padding edits of the three handshake messages "
-                "through loadb and the real _recv* entry points; %d crafted inputs (nesting, extreme lengths, bad field counts) with a tracemalloc bound; registry in effect: a foreign class / enum id at every position of every container shape of depth <=3, decoded with a whitelist registry and with a remapping registry. non-trivial = inputs that decoded to a value (all others raised)" % (
+                "through loadb and the real _recv* entry points; %d crafted inputs (nesting, extreme lengths, bad field counts) with a tracemalloc bound; registry in effect: a foreign class / enum id at every position of every container shape of depth <=3, decoded with a whitelist registry and with a remapping registry; a valid client hello with a version blob of every size 0..P+40 nested in a sequence / set / map announcing 16384 elements. non-trivial = inputs that decoded to a value (all others raised)" % (
                     4 if tier == "quick" else 5, len(tokens()), len(crafted())),
         "outcome_classes": dict(classes), "max_calls_per_byte_observed": round(maxratio, 2),
         "bounds": {"calls": "%d*len+%d" % (CALLS_PER_BYTE, CALLS_BASE), "memory(crafted only)": "%d*len+%d" % (MEM_PER_BYTE, MEM_BASE)},
@@ -526,6 +576,12 @@ def run(tier, seed):
 
 def replay(witness):
     work_init("quick")
+    if witness.get("family") == "nested-hello":
+        for name, m in nested_hello_cases():
+            if name == witness["name"]:
+                cls, bad, calls = probe(m)
+                return [core.Violation(bad[0], bad[1], witness, bad[2])] if bad else []
+        return []
     if witness.get("family") == "registry":
         out = []
         for k in range(16):
